@@ -1,4 +1,5 @@
 import BppProofs.Lemmas.TokRT
+import BppProofs.Lemmas.TokBridge
 /-!
 # C17 — "tokenising and re-joining with the recorded separators reproduces the input"
 
@@ -32,8 +33,31 @@ theorem unparse_tokenize (s d : Str) (solid allowEmpty : Bool) (hs : StrOk s) (T
     ∃ u, T.unparseRemainingTokens = .ok u ∧ ctorRtOk s d solid allowEmpty T.tokens T.splits u = true :=
   mkTokenizer_rt s d solid allowEmpty hs T h
 
-/-- non-vacuity: the constructor returns on every input unless the mode is solid and the delimiter
-empty (C16: `tokenizer_ctor_safe`, `mkTokenizer_spec`) -/
+/-- **totality**: the constructor raises (the library's exception) exactly when the mode is solid
+and the delimiter string empty; on every other input it returns — `unparse_tokenize` is not
+conditional on anything but that -/
+theorem tokenizer_raises_iff (s d : Str) (solid allowEmpty : Bool) (hs : StrOk s) :
+    mkTokenizer s d solid allowEmpty = .error .bpp ↔ (solid = true ∧ d = []) :=
+  mkTokenizer_error_iff s d solid allowEmpty hs
+
+/-- the round-trip law without the hypothesis "the constructor returned" -/
+theorem unparse_tokenize_total (s d : Str) (solid allowEmpty : Bool) (hs : StrOk s)
+    (hd : ¬ (solid = true ∧ d = [])) :
+    ∃ T u, mkTokenizer s d solid allowEmpty = .ok T ∧ T.unparseRemainingTokens = .ok u ∧
+      ctorRtOk s d solid allowEmpty T.tokens T.splits u = true := by
+  obtain ⟨T, hT⟩ := mkTokenizer_total s d solid allowEmpty hs hd
+  obtain ⟨u, hu, hok⟩ := unparse_tokenize s d solid allowEmpty hs T hT
+  exact ⟨T, u, hT, hu, hok⟩
+
+/-- **the two transcriptions of `StringTokenizer(s, d)` agree**: the character-level `Keyval.tokenize`
+(on which `parse_render` / `changeKeyvals_exact` rest, through `multipleKeyvals` with `nested = false`)
+returns the tokens of the position-level `mkTokenizer` (on which this file rests) -/
+theorem keyval_tokenize_is_tokenizer (s d : Str) (hs : StrOk s) :
+    ∃ T, mkTokenizer s d false false = .ok T ∧ Keyval.tokenize (fun c => d.contains c) s = T.tokens := by
+  obtain ⟨T, hT⟩ := mkTokenizer_total s d false false hs (by simp)
+  exact ⟨T, hT, tokenize_eq_mkTokenizer s d hs T hT⟩
+
+/-- examples -/
 example : StrOk ",a,;b,".toList ∧ mkTokenizer ",a,;b,".toList ",;".toList false false
     = .ok ⟨["a".toList, "b".toList], [",;".toList, ",".toList], 0⟩ := ⟨by decide, by rfl⟩
 example : mkTokenizer ",a,;b,".toList ",;".toList false true
